@@ -25,6 +25,7 @@ HEX_UNIVERSES = {
     "H3S": ["1001", "2001", "3001", "40"],
     # deleting 0001 collapses a branch into a leaf that is byte-identical to the leaf of key 12 (same remaining nibble, same value)
     "HC": ["0001", "0002", "12"],
+    "H2": ["", "1234"],
     "HW4": ["", "00", "70", "f0"],
     "H4b": ["12", "1234", "1235", "1245"],
     "HL": [
